@@ -5,6 +5,7 @@
 import Geo.Proto
 import Geo.LeviCivita
 import Geo.JoinMeet
+import Geo.Transform
 open Geo
 
 def absLeQ (a b : Q) : Bool := decide (Gauss.normSq a ≤ Gauss.normSq b)
@@ -88,6 +89,35 @@ def opDiagram (args : List String) : String := Id.run do
   let (res, sp) := d.eval arrays
   return s!"ok {showTens res} {sp.nFree} {sp.nCov} {showNatList "." sp.out} {String.intercalate ";" (sp.operands.map (showNatList "."))}"
 
+/-- `<nfree>|<tensor>` -/
+def parseTObj (s : String) : Option (TObj Q) :=
+  match s.splitOn "|" with
+  | [nf, t] => do some ⟨(← nf.toNat?), (← parseTens t)⟩
+  | _ => none
+
+def parseVec (s : String) : Option (List Q) := (parseTens s).map (·.data.toList)
+
+def showMatOpt : Option (Mat Q) → String
+  | some m => "ok " ++ showTens m.toTens
+  | none => "err LinAlg"
+
+def parseInt? (s : String) : Option Int := s.toInt?
+
+def opApply (args : List String) : String :=
+  match args with
+  | [t, x] =>
+    match parseTObj t, x.splitOn "|" with
+    | some t, [nf, nc, nn, xt] =>
+      match nf.toNat?, nc.toNat?, nn.toNat?, parseTens xt with
+      | some nf, some nc, some nn, some xt =>
+        match applyT t nf nc nn xt with
+        | .ok r => s!"ok {showTens r.1} {r.2.nFree} {r.2.nCov}"
+        | .error .runtimeError => "err LinAlg"
+        | .error e => showJMErr e
+      | _, _, _, _ => "bad-op"
+    | _, _ => "bad-op"
+  | _ => "bad-op"
+
 def dispatch (op : String) (args : List String) : String :=
   match op, args with
   | "diagram", _ => opDiagram args
@@ -109,6 +139,39 @@ def dispatch (op : String) (args : List String) : String :=
   | "contrat", [a] => match parseObj a with
     | some a => showObjRes (contravariantTensor a)
     | _ => "bad-op"
+  | "apply", _ => opApply args
+  | "compose", [a, b] => match parseTObj a, parseTObj b with
+    | some a, some b => let r := composeT a b; s!"ok {showTens r.t} {r.nfree}"
+    | _, _ => "bad-op"
+  | "inverse", [a] => match parseTObj a with
+    | some a => match a.inverse with
+      | some r => s!"ok {showTens r.t} {r.nfree}"
+      | none => "err LinAlg"
+    | _ => "bad-op"
+  | "pow", [a, k] => match parseTObj a, parseInt? k with
+    | some a, some k => match powT a k with
+      | .ok r => s!"ok {showTens r.t} {r.nfree}"
+      | .error .runtimeError => "err LinAlg"
+      | .error e => showJMErr e
+    | _, _ => "bad-op"
+  | "translation", [v] => match parseVec v with
+    | some v => showMatOpt (some (translationM v))
+    | _ => "bad-op"
+  | "scaling", [v] => match parseVec v with
+    | some v => showMatOpt (some (scalingM v))
+    | _ => "bad-op"
+  | "rot2", [c, s] => match parseQ c, parseQ s with
+    | some c, some s => showMatOpt (some (rotation2M c s))
+    | _, _ => "bad-op"
+  | "rot3", [c, s, a] => match parseQ c, parseQ s, parseVec a with
+    | some c, some s, some a => showMatOpt (some (rotation3M c s a))
+    | _, _, _ => "bad-op"
+  | "reflection", [v, x] => match parseVec v, parseVec x with
+    | some v, some x => showMatOpt (some (reflectionM v x))
+    | _, _ => "bad-op"
+  | "frompoints", _ => match args.mapM parseVec with
+    | some ps => let k := ps.length / 2; showMatOpt (fromPointsM (ps.take k) (ps.drop k))
+    | none => "bad-op"
   | "eps", [n] => match n.toNat? with
     | some n => s!"ok {showTens (epsTens n : Tens Q)}"
     | none => "bad-op"
